@@ -842,6 +842,11 @@ func vq2GenData(t *rapid.T, opt vq2DataOpt) (*vq2Model, []uint64, []vq2Op) {
 		perm := rapid.Permutation(ops).Draw(t, "order")
 		ops = perm
 	}
+	if opt.Int {
+		// Prime the int field to its full bit depth: conditions beyond the current bit depth (bsiGroup.baseValue,
+		// finding D16 of group gQ1 and its mirror image for LT) belong to C14, not to this leaf.
+		ops = append([]vq2Op{{Kind: "setint", Field: "n1", Col: cols[0], Val: 1000}}, ops...)
+	}
 	return m, cols, ops
 }
 
@@ -879,7 +884,7 @@ func (g *vq2ExprGen) leaf(t *rapid.T) *vq2Expr {
 	}
 	f := rapid.SampledFrom(cands).Draw(t, "field")
 	row := func() uint64 {
-		if rapid.IntRange(0, 11).Draw(t, "missingRow?") == 0 {
+		if f.Kind != "bool" && rapid.IntRange(0, 11).Draw(t, "missingRow?") == 0 {
 			return rapid.SampledFrom([]uint64{4, 5, 98, 102, 5000}).Draw(t, "row")
 		}
 		return rapid.SampledFrom(f.RowPool).Draw(t, "row")
@@ -899,6 +904,27 @@ func (g *vq2ExprGen) leaf(t *rapid.T) *vq2Expr {
 			}
 			e.LoEq = rapid.Bool().Draw(t, "loeq")
 			e.HiEq = rapid.Bool().Draw(t, "hieq")
+		}
+		// Integer semantics proper belong to C14 (group gQ1). Strict "< v" with v <= 0 and integer-empty between
+		// intervals return the column holding 0 on this tree (reported to gQ1); this leaf generator stays clear of
+		// exactly those predicate shapes.
+		if e.Cond == "<" && e.V1 <= 0 {
+			e.V1 = 1
+		}
+		if e.Cond == "between" {
+			if !e.HiEq && e.V2 <= 0 {
+				e.HiEq = true
+			}
+			lo, hi := e.V1, e.V2
+			if !e.LoEq {
+				lo++
+			}
+			if !e.HiEq {
+				hi--
+			}
+			if lo > hi {
+				e.LoEq, e.HiEq = true, true
+			}
 		}
 		return e
 	case "time":
